@@ -130,7 +130,7 @@ def directed():
 def sauce_directed():
     """(label, ext, content, width, height, ice)"""
     return [('sauce-h0', 'ans', b'A\nB', 80, 0, 0), ('sauce-h0-empty', 'ans', b'', 80, 0, 0), ('sauce-h0-scroll', 'ans', b'AB' + E + b'M' + E + b'[3S' + E + b'[2T' + E + b'D', 80, 0, 0),
-            ('sauce-w0', 'ans', b'A' * 81, 0, 25, 0), ('sauce-w1', 'ans', b'ABC' + E + b'[ A' + E + b'[4~', 1, 2, 0), ('sauce-w1001', 'avt', b'A' * 90, 1001, 3, 0),
+            ('sauce-w0', 'ans', b'A' * 81, 0, 25, 0), ('sauce-w0-eol-insert', 'ans', E + b'[4~' + E + b'[4h' + b'AB', 0, 25, 0), ('sauce-w0-scroll-right', 'ans', b'AB' + E + b'[ A' + E + b'[ @', 0, 25, 0), ('sauce-w1', 'ans', b'ABC' + E + b'[ A' + E + b'[4~', 1, 2, 0), ('sauce-w1001', 'avt', b'A' * 90, 1001, 3, 0),
             ('sauce-w1000', 'pcb', b'A' * 90 + E + b'[999C' + b'B', 1000, 3, 0), ('sauce-ice', 'pcb', b'@X9Fab\x1b[5mQ', 80, 25, 1), ('sauce-ice-avt', 'avt', b'\x16\x01\x9fab', 80, 25, 1),
             ('sauce-h100-ed', 'ans', b'A' + E + b'[J' + E + b'[99B' + b'B', 40, 100, 0), ('sauce-seq-h0', 'seq', b'AB\rC\x93D', 40, 0, 0), ('sauce-seq-w2', 'seq', b'ABCDE\x11\x9d\x9dF', 2, 3, 0),
             ('sauce-ata-w80', 'ata', b'A' * 45 + b'\x9b\x1c\x1c\x1c\x9d', 80, 3, 0), ('sauce-asc-h1', 'asc', b'A\nB\nC\n', 10, 1, 0)]
